@@ -72,6 +72,19 @@ CLAIMS = {
             "per disagreeing worker naming the first worker, dispatches nothing and leaves the scheduler unchanged; loadscope family: a disagreeing late joiner is never registered and an "
             "unregistered node is never assigned work. The late-joiner clause is FALSE for load/worksteal on the current code: negation proved on a witness (known finding F4)",
             "list lemmas + unfolding of schedule() (Lean 4), negation witness by decide ; differential correspondence with permuted/missing/extra/duplicated/empty collections; whole-system simulation with disagreeing initial and replacement workers"),
+    "C06": ("Lean theorems: loadfile key of 'path::anything' is the path; loadscope key of 'prefix::name' is the prefix (class else module); loadgroup key of 'id@group' is the group, "
+            "an ungrouped id is its own key (also with '@' inside a parametrisation id) - under decidable well-formedness hypotheses (no ':' in path / last segment, no '@' or ']' in "
+            "group names); each excluded point has a proved witness (known finding F10). Partial: whole units go to one worker and run contiguously - validated by the scheduler "
+            "correspondence and the whole-system monitor, not proved",
+            "string lemmas by induction (split/rsplit/rfind) (Lean 4) ; differential correspondence of the three _split_scope functions and of the '@group' tagging; scheduler correspondence; whole-system simulation with group monitors"),
+    "C14": ("Lean theorems for every warning and every capability profile of the controller (which classes it can import, what their constructors do): receiving never raises; an "
+            "importable class whose constructor accepts the arguments is rebuilt with the same category; otherwise a generic warning carrying '<module>.<class>: <text>' (category kept "
+            "when importable, Warning otherwise); the remaining details arrive unchanged or as their repr",
+            "case analysis over the transported data and the capability profile (Lean 4) ; differential correspondence through the real serialize / execnet dumps-loads / process_from_remote with built-in, custom-constructor, unimportable, local and nested classes; end-to-end runs compared with -n0"),
+    "C19": ("Lean theorems: make_reltoroot passes non-existing arguments through, rewrites an existing path to '<root name>/<relative path>' + selector for the first containing root "
+            "(component-wise prefix), maps the root itself to '<name>/.', and rejects exactly the existing paths under no root; the filter excludes exactly the entries whose name or full "
+            "path matches a pattern, with '*.pyc/*.pyo/*~' = suffix and '.*' = leading dot proved for the fnmatch model; purely local specs give no roots and send no files",
+            "list-prefix lemmas, induction over the matcher (Lean 4) ; differential correspondence on a real scratch tree (make_reltoroot, HostRSync.filter vs fnmatch, NodeManager roots/ignores over two sessions)"),
 }
 
 NOT_YET = {}
